@@ -38,7 +38,7 @@ META = dict(
 )
 
 
-LONG = [VALS[(i * 7 + i // 10) % len(VALS)] for i in range(5000)]
+LONG = [VALS[(i * 7 + i // 10) % len(VALS)] for i in range(12345)]
 
 
 def series_space(n):
